@@ -5,11 +5,11 @@ Concrete worlds used by the `example`s and `…_counterexample` theorems of `Pro
 namespace MakoModel.Cache
 
 /-- one container, no context wanted -/
-def exBe : Backend Unit := { regionOf := fun _ => (), passContext := false }
+def exBe : Backend Unit := { regionOf := fun _ => (), passContext := false, honoursStarttime := true }
 
 /-- containers selected by the keyword `type` (what the recording back end and Beaker do) -/
 def exBeType : Backend (Option ArgV) :=
-  { regionOf := fun kw => aGet kw "type".toList, passContext := true }
+  { regionOf := fun kw => aGet kw "type".toList, passContext := true, honoursStarttime := true }
 
 def exPage (cached : Bool) : Hdr :=
   { kind := .page, name := [], line := 0, param := none, cached := cached, buffered := false, filtered := false,
@@ -22,6 +22,11 @@ def exTm (uri txt : String) : Tmpl :=
 
 /-- two templates in one lookup whose URIs differ in one punctuation character -/
 def exW : World Unit := { be := exBe, tmpls := [exTm "/a-b.html" "first ", exTm "/a_b.html" "second "] }
+/-- the same URI bound first to one text, then to another (`put_string` twice): index 1 replaces index 0 -/
+def exWTakeover : World Unit := { be := exBe, tmpls := [exTm "/p.html" "v1 ", exTm "/p.html" "v2 "] }
+/-- … on a back end that ignores `starttime` -/
+def exWTakeoverNoStart : World Unit :=
+  { be := { exBe with honoursStarttime := false }, tmpls := [exTm "/p.html" "v1 ", exTm "/p.html" "v2 "] }
 def exWDistinct : World Unit := { be := exBe, tmpls := [exTm "/a-b.html" "first ", exTm "/c.html" "second "] }
 
 def ctx (x : String) : Env := [("x".toList, x.toList)]
